@@ -176,6 +176,9 @@ pub struct Src {
     pub sparse_sub_ids: bool,
     /// a synthetic event this source announced in a dispatch that then failed: the loop still owes it
     pub synth_owed: bool,
+    /// the source was unregistered while an announced event was still owed: the loop may still hand it over (to the
+    /// re-registered wrapper) or drop it
+    pub synth_maybe: bool,
     pub bs_calls: u32,
     pub life: LifeDispatch,
     // registration accounting
@@ -241,6 +244,7 @@ impl Src {
             synth_armed: false,
             sparse_sub_ids: false,
             synth_owed: false,
+            synth_maybe: false,
             bs_calls: 0,
             life: LifeDispatch::default(),
             reg_calls: [0; 3],
